@@ -60,6 +60,11 @@ def tasks(tier):
             d_as_k = d_as
         out.append({"family": "async-interleave", "cfg": cfg, "entry": "AsyncPolicy", "bound": d_as_k,
                     "max_out": 2 if tier == "quick" else 3, "kinds": kinds, "weight": 8})
+        if thr == 1 and R == 2:
+            # the operation may also fail with an exception chained to a CircuitOpenError
+            out.append({"family": "async-interleave", "cfg": dict(cfg, chained=True),
+                        "entry": "AsyncPolicy", "bound": d_as_k - 1,
+                        "max_out": 2, "kinds": kinds, "weight": 8})
     for t in c06.tasks(tier):
         if t["family"] == "policy-seq":
             out.append(dict(t, family="policy-seq"))
